@@ -316,6 +316,14 @@ def ser_set_transmission_file(ctx, state):
     for op in ops:
         if op[0] in ('open', 'write', 'close'):
             ctx.prove(not is_dump(op[1]), 'C09+C06:O9.2.dump-path-only-renamed-onto', info=repr(op[:2]))
+    # O9.5 (receiver, file mode): a chunk flagged isFirst starts the accumulation afresh - the scratch file is (re)opened for writing, which
+    # truncates it, before the chunk is written; bytes of an interrupted earlier transfer never precede it
+    writes = [k_ for k_, op in enumerate(ops) if op[0] == 'write' and op[2] is chunk]
+    opens = [k_ for k_, op in enumerate(ops) if op[0] == 'open' and 'w' in str(op[2]) and 'a' not in str(op[2])]
+    if writes:
+        ctx.prove(Implies(first, bool(opens) and opens[0] < writes[0]) if not (opens and opens[0] < writes[0]) else True,
+                  'C09+C01:O9.5.first-chunk-restarts-the-scratch-file', info=repr([o[:2] for o in ops]))
+        ctx.prove(Implies(Not(first), not opens) if opens else True, 'C09:O9.5.later-chunks-append-to-the-open-scratch-file')
     rn = [op for op in ops if op[0] == 'rename']
     ctx.prove(len(rn) <= 1 and all(is_dump(op[2]) and not is_dump(op[1]) for op in rn), 'C09+C06:O9.2.single-rename-of-tmp-onto-dump')
     if rn:
